@@ -39,7 +39,7 @@ def o_qnl(inp):
     except Exception as e:
         return [("raises", f"{type(e).__name__}: {e}")]
     out = [from_real(m) for m in s._messages]
-    tin, _ = abs_timed(a)
+    tin = pre          # expected notes are read off the canonical order, whatever order the messages were entered in
     tout = [(m[TIME], m) for m in out if m[TY] != INTERNAL]
     fails = []
     if wf_violations(tout):
@@ -94,6 +94,9 @@ def generate(ctx):
     rng = ctx.rng
     for i in range(ctx.n(400, 15000)):
         a, notes = G.gen_wf_abs(rng, channels=(0, 1))
+        if rng.random() < 0.35:
+            a = G.shuffle_ties(rng, a)       # entered in another order: equal-time messages not in canonical order
+            ctx.count("abs:ties-shuffled")
         values = rng.choice(VALUE_LISTS)
         if rng.random() < 0.3:      # random list: duplicates and any order allowed
             values = [rng.choice([1, 2, 3, 4, 6, 8, 9, 12, 16, 18, 24, 36, 48]) for _ in range(rng.randint(1, 6))]
